@@ -141,7 +141,7 @@ Proof.
   assert (Hr : 0 <= r < 4294967296) by (apply Z.mod_pos_bound; lia).
   rewrite Z.shiftr_div_pow2 by lia. change (2 ^ 16) with 65536.
   change 65535 with (Z.ones 16). rewrite Z.land_ones by lia. change (2 ^ 16) with 65536.
-  rewrite pack_H_le by lia. simpl bind. rewrite pack_H_le by lia. reflexivity.
+  rewrite pack_H_le by lia. cbn [bind]. rewrite pack_H_le by lia. reflexivity.
 Qed.
 
 (* ---- the three value directives ----------------------------------------------------------------- *)
@@ -192,17 +192,39 @@ Lemma value_pack w vs :
   end (map (fun v => v mod 2 ^ bits w) vs) = Ok (concat (map (value_bytes w) vs)).
 Proof.
   destruct w; simpl bits.
-  - rewrite (pack_all_ok pack_B (fun x => [x])).
-    + f_equal. induction vs as [|v vs IH]; simpl; [reflexivity|]. rewrite IH.
-      pose proof (pack_B_value v) as P. unfold pack_B in P.
-      destruct ((0 <=? v mod 2 ^ 8) && (v mod 2 ^ 8 <? 256)); inversion P. reflexivity.
-    + intros x Hx. apply in_map_iff in Hx. destruct Hx as [v [<- _]].
-      unfold pack_B. assert (0 <= v mod 2 ^ 8 < 256) by (apply Z.mod_pos_bound; lia).
-      replace ((0 <=? v mod 2 ^ 8) && (v mod 2 ^ 8 <? 256)) with true by lia. reflexivity.
-  - induction vs as [|v vs IH]; [reflexivity|]. simpl map. rewrite pack_all_cons, pack_H_value. simpl bind.
+  - induction vs as [|v vs IH]; [reflexivity|]. cbn [map]. rewrite pack_all_cons, pack_B_value. cbn [bind].
     rewrite IH. reflexivity.
-  - induction vs as [|v vs IH]; [reflexivity|]. simpl map. rewrite pack_all_cons, encode_i32_value. simpl bind.
+  - induction vs as [|v vs IH]; [reflexivity|]. cbn [map]. rewrite pack_all_cons, pack_H_value. cbn [bind].
     rewrite IH. reflexivity.
+  - induction vs as [|v vs IH]; [reflexivity|]. cbn [map]. rewrite pack_all_cons, encode_i32_value. cbn [bind].
+    rewrite IH. reflexivity.
+Qed.
+
+Lemma byte_body_ne vs : vs <> [] -> byte_body vs = of_res (pack_all pack_B vs).
+Proof. destruct vs; [contradiction|reflexivity]. Qed.
+
+Lemma word_body_ne addr vs ds pre : vs <> [] -> odd_prefix addr = Ok (ds, pre) ->
+  word_body addr vs = after ds pre (of_res (pack_all pack_H vs)).
+Proof. intros Hne Hp. unfold word_body. rewrite Hp. destruct vs; [contradiction|reflexivity]. Qed.
+
+Lemma dword_body_ne addr vs ds pre : vs <> [] -> odd_prefix addr = Ok (ds, pre) ->
+  dword_body addr vs = after ds pre (of_res (pack_all encode_i32 vs)).
+Proof. intros Hne Hp. unfold dword_body. rewrite Hp. destruct vs; [contradiction|reflexivity]. Qed.
+
+Lemma map_ne {A B} (f : A -> B) l : l <> [] -> map f l <> [].
+Proof. destruct l; [contradiction|discriminate]. Qed.
+
+(* the body on admitted, reduced values, for any prefix *)
+Lemma vbody_values w addr vs ds pre :
+  vs <> [] -> (w = W8 -> ds = [] /\ pre = []) -> (w <> W8 -> odd_prefix addr = Ok (ds, pre)) ->
+  vbody w addr (map (fun v => v mod 2 ^ bits w) vs) = Out (ds ++ []) (pre ++ concat (map (value_bytes w) vs)).
+Proof.
+  intros Hne H8 Hn8. pose proof (value_pack w vs) as P.
+  pose proof (map_ne (fun v => v mod 2 ^ bits w) vs Hne) as Hne'.
+  destruct w; unfold vbody.
+  - destruct (H8 eq_refl) as [-> ->]. rewrite (byte_body_ne _ Hne'), P. reflexivity.
+  - rewrite (word_body_ne addr _ ds pre Hne' (Hn8 ltac:(discriminate))), P. reflexivity.
+  - rewrite (dword_body_ne addr _ ds pre Hne' (Hn8 ltac:(discriminate))), P. reflexivity.
 Qed.
 
 (* admitted values, permitted address: exactly the stated bytes, no diagnostic *)
@@ -212,20 +234,84 @@ Lemma data_ok enc w vs addr :
 Proof.
   intros Hne Hf Ha. rewrite emit_value, plain_hash, plain_snd, after_nil.
   rewrite (mapM_gai_ok _ _ _ (bits_nonneg w) (forallb_fits_Forall _ _ Hf)). unfold cooked.
-  pose proof (value_pack w vs) as P.
-  destruct vs as [|v0 vs0]; [contradiction|].
-  set (vs := v0 :: vs0) in *.
-  destruct w; unfold vbody.
-  - unfold byte_body. change (map (fun v => v mod 2 ^ bits W8) vs) with ((v0 mod 2 ^ bits W8) :: map (fun v => v mod 2 ^ bits W8) vs0) at 1.
-    cbv iota. fold vs. unfold vs at 1. simpl map at 1.
-    change ((v0 mod 2 ^ bits W8) :: map (fun v => v mod 2 ^ bits W8) vs0) with (map (fun v => v mod 2 ^ bits W8) vs).
-    rewrite P. reflexivity.
-  - destruct Ha as [Ha|Ha]; [discriminate|]. unfold word_body. rewrite (odd_prefix_even _ Ha).
-    unfold vs at 1. simpl map at 1. cbv iota.
-    change ((v0 mod 2 ^ bits W16) :: map (fun v => v mod 2 ^ bits W16) vs0) with (map (fun v => v mod 2 ^ bits W16) vs).
-    rewrite P. reflexivity.
-  - destruct Ha as [Ha|Ha]; [discriminate|]. unfold dword_body. rewrite (odd_prefix_even _ Ha).
-    unfold vs at 1. simpl map at 1. cbv iota.
-    change ((v0 mod 2 ^ bits W32) :: map (fun v => v mod 2 ^ bits W32) vs0) with (map (fun v => v mod 2 ^ bits W32) vs).
-    rewrite P. reflexivity.
+  rewrite (vbody_values w addr vs [] []); [reflexivity|assumption|auto|].
+  intros Hw. destruct Ha as [Ha|Ha]; [contradiction|]. apply odd_prefix_even. exact Ha.
+Qed.
+
+(* word data at an odd address: the error is reported and one zero byte precedes the data *)
+Lemma data_odd enc w vs addr :
+  vs <> [] -> forallb (fits w) vs = true -> w <> W8 -> addr mod 2 = 1 ->
+  emit enc (DMeta (vname w) (plain vs)) addr = Out [(E, "odd-address")] (0 :: concat (map (value_bytes w) vs)).
+Proof.
+  intros Hne Hf Hw Ha. rewrite emit_value, plain_hash, plain_snd, after_nil.
+  rewrite (mapM_gai_ok _ _ _ (bits_nonneg w) (forallb_fits_Forall _ _ Hf)). unfold cooked.
+  rewrite (vbody_values w addr vs [(E, "odd-address")] [0]); [reflexivity|assumption|contradiction|].
+  intros _. apply odd_prefix_odd. exact Ha.
+Qed.
+
+(* no operand: one zero of the width, with the implicit-operand warning *)
+Lemma data_empty enc w addr :
+  (w = W8 \/ addr mod 2 = 0) ->
+  emit enc (DMeta (vname w) []) addr = Out [(W, "implicit-operand")] (zero_bytes (nbytes w)).
+Proof.
+  intros Ha. rewrite emit_value. simpl. destruct w; simpl.
+  - reflexivity.
+  - destruct Ha as [Ha|Ha]; [discriminate|]. unfold word_body. rewrite (odd_prefix_even _ Ha). reflexivity.
+  - destruct Ha as [Ha|Ha]; [discriminate|]. unfold dword_body. rewrite (odd_prefix_even _ Ha). reflexivity.
+Qed.
+
+Lemma data_empty_odd enc w addr :
+  w <> W8 -> addr mod 2 = 1 ->
+  emit enc (DMeta (vname w) []) addr = Out [(E, "odd-address"); (W, "implicit-operand")] (0 :: zero_bytes (nbytes w)).
+Proof.
+  intros Hw Ha. rewrite emit_value. simpl. destruct w; simpl.
+  - contradiction.
+  - unfold word_body. rewrite (odd_prefix_odd _ Ha). reflexivity.
+  - unfold dword_body. rewrite (odd_prefix_odd _ Ha). reflexivity.
+Qed.
+
+(* a value whose magnitude does not fit: refused (error reported, RecoverableError: no bytes at all) *)
+Lemma data_out_of_range enc w vs addr :
+  forallb (fits w) vs = false -> emit enc (DMeta (vname w) (plain vs)) addr = voob.
+Proof.
+  intros Hf. rewrite emit_value, plain_hash, plain_snd, after_nil.
+  rewrite (mapM_gai_err _ _ _ (bits_nonneg w) (forallb_fits_Exists _ _ Hf)). reflexivity.
+Qed.
+
+(* ---- implicit word lists ------------------------------------------------------------------------- *)
+Lemma word_list_unfold addr ws :
+  word_list addr ws =
+  match mapM (get_as_int (Some 16) false None) ws with
+  | Ok vs => match odd_prefix addr with
+             | Ok (ds, pre) => after ds pre (of_res (pack_all pack_H vs))
+             | Err _ => Crashed "unexpected" | Crash s => Crashed s | OutOfFuel => Crashed "fuel" end
+  | Err ids => Raised (map (pair E) ids)
+  | Crash s => Crashed s
+  | OutOfFuel => Crashed "fuel"
+  end.
+Proof. reflexivity. Qed.
+
+Lemma words_ok enc ws addr :
+  forallb (fits W16) ws = true -> addr mod 2 = 0 ->
+  emit enc (DWordList ws) addr = Out [] (concat (map (value_bytes W16) ws)).
+Proof.
+  intros Hf Ha. simpl emit. rewrite word_list_unfold.
+  rewrite (mapM_gai_ok 16 false ws ltac:(lia) (forallb_fits_Forall W16 _ Hf)).
+  rewrite (odd_prefix_even _ Ha). pose proof (value_pack W16 ws) as P. cbn [bits] in P. rewrite P. reflexivity.
+Qed.
+
+Lemma words_odd enc ws addr :
+  forallb (fits W16) ws = true -> addr mod 2 = 1 ->
+  emit enc (DWordList ws) addr = Out [(E, "odd-address")] (0 :: concat (map (value_bytes W16) ws)).
+Proof.
+  intros Hf Ha. simpl emit. rewrite word_list_unfold.
+  rewrite (mapM_gai_ok 16 false ws ltac:(lia) (forallb_fits_Forall W16 _ Hf)).
+  rewrite (odd_prefix_odd _ Ha). pose proof (value_pack W16 ws) as P. cbn [bits] in P. rewrite P. reflexivity.
+Qed.
+
+Lemma words_out_of_range enc ws addr :
+  forallb (fits W16) ws = false -> emit enc (DWordList ws) addr = voob.
+Proof.
+  intros Hf. simpl emit. rewrite word_list_unfold.
+  rewrite (mapM_gai_err 16 false ws ltac:(lia) (forallb_fits_Exists W16 _ Hf)). reflexivity.
 Qed.
